@@ -17,7 +17,6 @@ except Exception:
 ALL = [f"C{i:02d}" for i in range(1, 29)]
 # checks that exist but are withdrawn for now (reason shown under not_applicable)
 WITHDRAWN = {
-    "C23": "check exists (Props/C23.lean, checks/c23.py) but is temporarily withdrawn: its path model disagrees with the code on one multi-argument CLI corner case (false alarm under repair)",
 }
 CLAIMED = {}
 for path in sorted(glob.glob(os.path.join(os.path.dirname(__file__), "c[0-9][0-9].py"))):
